@@ -172,7 +172,9 @@ def rule_bookkeeping(ctx):
             continue
         okl = True
     if okl:
-        ctx.holds('R3', 'interp_like: obj = obj.interp_axis(other.axes[name].values, axis=name, **kwargs)')
+        from .c07 import skip_guard_check
+        if skip_guard_check(ctx, 'R3', il, 'interp_axis', 'interp_like'):
+            ctx.holds('R3', 'interp_like: obj = obj.interp_axis(other.axes[name].values, axis=name, **kwargs)')
 
 
 def strip(t):
